@@ -44,6 +44,7 @@ type Frame struct {
 	loopHdr map[int]int
 	defers  []*ssa.Defer
 	recvd   bool
+	private    []privCell
 	loopHead   map[int]*loopCtx
 	paramEntry map[string]Term
 	named      map[string]Term
@@ -210,13 +211,18 @@ func (g *Gen) setVal(f *Frame, v ssa.Value, term string) {
 	srt := g.d.sortOf(t)
 	n := g.define(f.name(v)+g.uniq(f, v), srt, term)
 	f.vals[v] = Term{n, srt, t}
-	g.typeFacts(f.en, Term{n, srt, t}, f.st, false)
+	bound := g.now(f.st)
+	if g.nextBound != "" {
+		bound = g.nextBound
+		g.nextBound = ""
+	}
+	g.typeFacts(f.en, Term{n, srt, t}, bound, false)
 }
 
 func (g *Gen) uniq(f *Frame, v ssa.Value) string { return "" }
 
 // typeFacts assumes representation invariants of a value of Go type t.
-func (g *Gen) typeFacts(en string, t Term, st *State, ranges bool) {
+func (g *Gen) typeFacts(en string, t Term, bound string, ranges bool) {
 	if t.T == nil {
 		return
 	}
@@ -226,9 +232,9 @@ func (g *Gen) typeFacts(en string, t Term, st *State, ranges bool) {
 			g.assume(en, fmt.Sprintf("(and (<= %s %s) (<= %s %s))", lo, t.S, t.S, hi))
 		}
 	case *types.Slice:
-		g.assume(en, fmt.Sprintf("(and (<= 0 (s_off %[1]s)) (<= 0 (s_len %[1]s)) (<= (s_len %[1]s) (s_cap %[1]s)) (<= (+ (s_off %[1]s) (s_cap %[1]s)) 9223372036854775807) (<= 0 (s_ref %[1]s)) (<= (s_ref %[1]s) %[2]s) (=> (= (s_ref %[1]s) 0) (= (s_cap %[1]s) 0)))", t.S, g.now(st)))
+		g.assume(en, fmt.Sprintf("(and (<= 0 (s_off %[1]s)) (<= 0 (s_len %[1]s)) (<= (s_len %[1]s) (s_cap %[1]s)) (<= (+ (s_off %[1]s) (s_cap %[1]s)) 9223372036854775807) (<= 0 (s_ref %[1]s)) (<= (s_ref %[1]s) %[2]s) (=> (= (s_ref %[1]s) 0) (= (s_cap %[1]s) 0)))", t.S, bound))
 	case *types.Pointer, *types.Map, *types.Chan:
-		g.assume(en, fmt.Sprintf("(<= %s %s)", t.S, g.now(st)))
+		g.assume(en, fmt.Sprintf("(<= %s %s)", t.S, bound))
 	}
 }
 
@@ -708,6 +714,26 @@ func (g *Gen) loopHeader(f *Frame, ci *cfgInfo, b *ssa.BasicBlock, preds []*ssa.
 		g.nfresh++
 		st = &State{comp: map[string]string{}, base: fmt.Sprintf("e%d", g.nfresh)}
 		g.assume(f.en, fmt.Sprintf("(<= %s %s)", g.now(pre), g.now(st)))
+		touched := map[*ssa.Alloc]bool{}
+		for _, lb := range ci.loopOf[b.Index] {
+			for _, ins := range lb.Instrs {
+				switch u := ins.(type) {
+				case *ssa.Store:
+					if a, ok := u.Addr.(*ssa.Alloc); ok {
+						touched[a] = true
+					}
+				case ssa.CallInstruction:
+					if mc, ok := u.Common().Value.(*ssa.MakeClosure); ok {
+						for _, bnd := range mc.Bindings {
+							if a, ok := bnd.(*ssa.Alloc); ok {
+								touched[a] = true
+							}
+						}
+					}
+				}
+			}
+		}
+		g.preservePrivate(f, pre, st, touched)
 	} else {
 		var ks []string
 		for c := range comps {
@@ -722,6 +748,9 @@ func (g *Gen) loopHeader(f *Frame, ci *cfgInfo, b *ssa.BasicBlock, preds []*ssa.
 		if comps[nowComp] {
 			g.assume(f.en, fmt.Sprintf("(<= %s %s)", g.now(pre), g.now(st)))
 		}
+		for _, c := range ks {
+			g.verBound[st.comp[c]] = g.now(st)
+		}
 	}
 	f.st = st
 	for _, phi := range phis {
@@ -729,7 +758,7 @@ func (g *Gen) loopHeader(f *Frame, ci *cfgInfo, b *ssa.BasicBlock, preds []*ssa.
 		n := f.name(phi)
 		g.declare(n, srt)
 		f.vals[phi] = Term{n, srt, phi.Type()}
-		g.typeFacts(f.en, f.vals[phi], f.st, true)
+		g.typeFacts(f.en, f.vals[phi], g.now(f.st), true)
 	}
 	if spec != nil {
 		for _, inv := range spec.Invariants {
@@ -751,6 +780,65 @@ func (g *Gen) loopHeader(f *Frame, ci *cfgInfo, b *ssa.BasicBlock, preds []*ssa.
 		lc.varAtHead = g.defFresh("variant", "Int", v.S)
 	}
 	f.loopHead[b.Index] = lc
+}
+
+// privCell is a local variable cell that no callee can reach (captured at most by closures that are
+// only called or deferred by this function): calls with unknown effects leave it unchanged.
+type privCell struct {
+	alloc *ssa.Alloc
+	comp  string
+	ref   string
+}
+
+func isPrivateAlloc(a *ssa.Alloc) bool {
+	refs := a.Referrers()
+	if refs == nil {
+		return false
+	}
+	for _, r := range *refs {
+		switch u := r.(type) {
+		case *ssa.Store:
+			if u.Val == a {
+				return false
+			}
+		case *ssa.UnOp, *ssa.DebugRef:
+		case *ssa.MakeClosure:
+			crefs := u.Referrers()
+			if crefs == nil {
+				return false
+			}
+			for _, cr := range *crefs {
+				switch cu := cr.(type) {
+				case *ssa.Defer:
+					if cu.Call.Value != u {
+						return false
+					}
+				case *ssa.Call:
+					if cu.Call.Value != u {
+						return false
+					}
+				case *ssa.DebugRef:
+				default:
+					return false
+				}
+			}
+		default:
+			return false
+		}
+	}
+	return true
+}
+
+// preservePrivate re-establishes the values of private cells after a havoc from old to new state.
+func (g *Gen) preservePrivate(f *Frame, old, nw *State, skip map[*ssa.Alloc]bool) {
+	for fr := f; fr != nil; fr = fr.parent {
+		for _, pc := range fr.private {
+			if skip != nil && skip[pc.alloc] {
+				continue
+			}
+			g.assume("true", fmt.Sprintf("(= (select %s %s) (select %s %s))", g.get(nw, pc.comp), pc.ref, g.get(old, pc.comp), pc.ref))
+		}
+	}
 }
 
 type loopCtx struct {
